@@ -36,18 +36,22 @@ from mc.ref import embed as E, gates as G, interp
 PROPERTY = "C13"
 LEVEL = "model_checking"
 RULE = ("BFS closure of the real CliffordTableauSimulationState (n=1: 24, n=2: 11520 states) and "
-        "StabilizerChFormSimulationState (n<=2 closed; n=3 depth-bounded) under cirq.act_on of a letter set (H, S, "
-        "half-integer X/Y/Z powers with global shifts, CZ/CNOT/SWAP/ISWAP variants, global phase, all 24 "
-        "SingleQubitCliffordGates, multi-qubit CliffordGates, MatrixGate, PhasedXZ, tagged ops, on every qubit / ordered "
-        "pair); n=3 tableau depth-bounded; every (state, letter) transition is compared with a dense reference; a "
-        "transition is non-trivial when the letter is not proportional to identity; distinct = distinct (state, letter); "
-        "plus all 24x24 SingleQubitCliffordGate products, all elements x 8 phases, all map constructors, and every "
-        "scripted-PRNG path of Clifford circuits (length<=3/4) on CliffordSimulator/StabilizerSampler")
+        "StabilizerChFormSimulationState (n<=2 closed: 128 / 24576 CH representations; n=3 depth-bounded) under "
+        "cirq.act_on of a letter set on every qubit / ordered pair: primitive-route letters (H, S, half-integer X/Y/Z "
+        "powers incl. exponents >2 and global shifts, CZ/CNOT/SWAP powers with shifts, global phases, tagged ops) are "
+        "applied in EVERY state; decompose/fallback-route letters (all 24 SingleQubitCliffordGates, MatrixGate, PhasedXZ, "
+        "ISWAP, XX/YY/ZZ, CY, multi-qubit CliffordGates, PauliString, CircuitOperation) in every n=1 state and in every "
+        "state up to BFS depth 1 (quick) / 2 (thorough); n=3 tableau and CH form depth-bounded; every (state, letter) "
+        "transition is compared with a dense reference; non-trivial = the letter is not proportional to identity; "
+        "distinct = distinct (state, letter); plus all 24x24 SingleQubitCliffordGate products, all elements x 8 phases, all "
+        "map constructors, cache histories, and every scripted-PRNG path of Clifford circuits (length<=3 quick / 4 thorough) on "
+        "CliffordSimulator/StabilizerSampler")
 TECHNIQUE = ("explicit-state BFS closure of the stabilizer state spaces through the real update rules with a dense "
              "matrix/vector reference next to every state; exhaustive finite group algebra; scripted-PRNG path DFS")
 LEVEL_TEXT = ("Every element of the 1- and 2-qubit Clifford groups is reached as a real tableau state and every CH-form "
-              "representation reachable on <=2 qubits is reached as a real CH state; in each of them every letter of the "
-              "alphabet is applied through cirq.act_on and the result compared with dense linear algebra (tableau rows = "
+              "representation reachable on <=2 qubits is reached as a real CH state; in each of them every primitive-route "
+              "letter (and near the root every decompose/fallback-route letter) is applied through cirq.act_on and the result "
+              "compared with dense linear algebra (tableau rows = "
               "conjugated Paulis with exact sign; CH amplitudes exact incl. global phase), and every measurement answer is "
               "explored with its weight. n=3 is searched to a stated depth only; circuits with measurements/feed-forward "
               "are bounded by length.")
@@ -345,6 +349,9 @@ def _init(seed):
             "fast": [i for i in idx if L[i].cls in ("core", "fast")],
             "all": list(idx),
         }
+        # fast letters + the multi-qubit CliffordGate objects (their tableau _act_on_ is `then` + padding, cheap)
+        _SETS[n]["fast_tab"] = [i for i in idx if L[i].cls in ("core", "fast")
+                                or (isinstance(L[i].op.gate, cirq.CliffordGate) and len(L[i].axes) == 2)]
         tabs = []
         for l in L:
             s = new_tab(n)
@@ -1738,9 +1745,10 @@ def stages(tier, seed):
         ]
     else:
         out += [
-            make_tab_stage("G1_tableau_closure_n2", 2, lambda d: ("all", ALLF), expect=11520),
-            make_ch_stage("G2_chform_closure_n2", 2, lambda d: ("all", ALLF)),
-            make_tab_stage("G3_tableau_n3_depth4", 3, lambda d: ("all" if d == 0 else "g3", F_INV1 | F_MEAS if d <= 2 else F_INV1), max_depth=4),
+            make_tab_stage("G1_tableau_closure_n2", 2, lambda d: ("all" if d <= 2 else "fast_tab", ALLF), expect=11520),
+            make_ch_stage("G2_chform_closure_n2", 2, lambda d: ("all" if d <= 2 else "fast", ALLF)),
+            make_tab_stage("G3_tableau_n3_depth4", 3, lambda d: ("all" if d == 0 else ("g3" if d <= 2 else "core"),
+                                                                 F_INV1 | F_MEAS if d <= 2 else F_INV1), max_depth=4),
             make_tab_stage("G3_tableau_n3_generators_depth5", 3, lambda d: ("gen", F_INV1 if d <= 3 else 0), max_depth=5),
             make_ch_stage("G2_chform_n3_depth3", 3, lambda d: ("all" if d == 0 else "g3", F_INV1 | F_MEAS), max_depth=3),
             make_ch_stage("G2_chform_n3_generators_depth5", 3, lambda d: ("gen_gp", (F_INV1 | F_MEAS) if d <= 2 else 0), max_depth=5),
